@@ -138,8 +138,45 @@ impl<KT: DbMapKeyType> FileDbXxxInner<KT> {
     }
 }
 
-// delete: NEW
-impl<KT: DbMapKeyType> FileDbXxxInner<KT> {}
+// relink: a key piece was moved, the link to it must follow.
+impl<KT: DbMapKeyType> FileDbXxxInner<KT> {
+    /// finds the key piece whose bucket next offset is `key_offset`. zero: the bucket head.
+    fn find_prev_key_offset(
+        &mut self,
+        hash: HashValue,
+        key_offset: KeyPieceOffset,
+    ) -> Result<KeyPieceOffset> {
+        let mut prev_key_offset = KeyPieceOffset::new(0);
+        let mut curr_offset = self.htx_file.read_key_piece_offset(hash)?;
+        let mut locked_key = self.key_file.0.borrow_mut();
+        while !curr_offset.is_zero() && curr_offset != key_offset {
+            prev_key_offset = curr_offset;
+            curr_offset = locked_key.read_piece_only_bucket_next_offset(curr_offset)?;
+        }
+        Ok(prev_key_offset)
+    }
+    /// makes the piece at `prev_key_offset` (zero: the bucket head) link to `new_key_offset`.
+    /// rewriting a link may move that piece too, then its own predecessor is relinked.
+    fn relink_key_piece(
+        &mut self,
+        hash: HashValue,
+        mut prev_key_offset: KeyPieceOffset,
+        mut new_key_offset: KeyPieceOffset,
+    ) -> Result<()> {
+        while !prev_key_offset.is_zero() {
+            let mut prev_key_piece = self.key_file.read_piece(prev_key_offset)?;
+            prev_key_piece.bucket_next_offset = new_key_offset;
+            let new_prev_key = self.key_file.write_piece(prev_key_piece)?;
+            if prev_key_offset == new_prev_key.offset {
+                return Ok(());
+            }
+            let prev_prev_offset = self.find_prev_key_offset(hash, prev_key_offset)?;
+            new_key_offset = new_prev_key.offset;
+            prev_key_offset = prev_prev_offset;
+        }
+        self.htx_file.write_key_piece_offset(hash, new_key_offset)
+    }
+}
 
 // find: NEW
 impl<KT: DbMapKeyType> FileDbXxxInner<KT> {
@@ -249,7 +286,8 @@ impl<KT: DbMapKeyType> DbXxxObjectSafe<KT> for FileDbXxxInner<KT> {
         if let Some((key_offset, _prev_key_offset)) = opt {
             let new_key_offset = self.store_value_on_insert(key_offset, value)?;
             if key_offset != new_key_offset {
-                unimplemented!("key_offset != new_key_offset : in put_kt");
+                _cold();
+                self.relink_key_piece(hash, _prev_key_offset, new_key_offset)?;
             }
         } else {
             _cold();
@@ -287,7 +325,8 @@ impl<KT: DbMapKeyType> DbXxxObjectSafe<KT> for FileDbXxxInner<KT> {
                 let new_prev_key = self.key_file.write_piece(prev_key_piece)?;
                 if _prev_key_offset != new_prev_key.offset {
                     _cold();
-                    panic!("_prev_key_offset != new_prev_key_offset : in del_kt");
+                    let prev_prev_offset = self.find_prev_key_offset(hash, _prev_key_offset)?;
+                    self.relink_key_piece(hash, prev_prev_offset, new_prev_key.offset)?;
                 }
             }
             //
